@@ -323,6 +323,9 @@ func (e *Exec) loadField(st *State, ref string, T types.Type, i int) Val {
 		terms = append(terms, sel(arr, ref))
 	}
 	v := unflatten(f.Type(), &terms)
+	if kindOf(f.Type()) == kSlice {
+		e.once("tinv:"+strings.Join(terms, ","), func() { e.assumeTypeInv(v, "true") })
+	}
 	return v
 }
 
@@ -561,10 +564,15 @@ func (e *Exec) assumeTypeInv(v Val, pc string) {
 			e.assumeTypeInv(f, pc)
 		}
 	case kScalar:
-		if scalarSort(v.T) == sStr && v.S != "" {
-			e.assume(mkImp(pc, mkAnd(app("bvsle", bvLitI(64, 0), app("slen", v.S)), app("bvsle", app("slen", v.S), bvLitI(64, 1<<40)))))
+		if scalarSort(v.T) == sStr && v.S != "" && v.S != "str.empty" {
+			e.strInv(v.S, pc)
 		}
 	}
+}
+
+func (e *Exec) strInv(s, pc string) {
+	e.assume(mkImp(pc, mkAnd(app("bvsle", bvLitI(64, 0), app("slen", s)), app("bvsle", app("slen", s), bvLitI(64, 1<<40)),
+		mkImp(mkEq(app("slen", s), bvLitI(64, 0)), mkEq(s, "str.empty")))))
 }
 
 // ---------------------------------------------------------------- obligations
